@@ -168,7 +168,10 @@ class Server:
     def connect(self, client):
         c = Conn(client, len(self.conns))
         self.conns.append(c)
-        c.down.append({"type": "welcome", "welcome": dict(self.welcome)})
+        w = dict(self.welcome)
+        if getattr(self, "welcome_next", None) is not None:
+            w, self.welcome_next = dict(self.welcome_next), None     # (an operator restarted the server with an error/MOTD for new connections)
+        c.down.append({"type": "welcome", "welcome": w})
         return c
 
     def disconnect(self, conn):
